@@ -24,7 +24,7 @@ ASSUMPTIONS = [
     "AT4 0x36 timer control and the quick timer sub-messages are not in the vendor documents: judged by spec/undocumented_messages.md (records of ACs other than the addressed one are not judged)",
     "set-points that do not fit the protocol field (outside 0..250 raw on AT5, 6 bit on AT4) are not judged",
 ]
-PROBES = ["c04.accepted_call", "c04.tie_temperature", "c04.ext_address", "c04.timer_control", "c04.closed_loop_checked"]
+PROBES = ["c04.inexpressible_value", "c04.accepted_call", "c04.tie_temperature", "c04.ext_address", "c04.timer_control", "c04.closed_loop_checked"]
 TRUSTED_BASE = ["ref/apispec.py", "ref/wire4.py / ref/wire5.py decoders of control frames", "spec/undocumented_messages.md for timer messages"]
 
 
@@ -49,6 +49,17 @@ def execute(sc: dict) -> dict:
             d = v["closed_loop_diffs"]
             V.append(viol("C04.closed_loop", {"diffs": d}, attr=d[0]["attr"]))
             continue
+        if v.get("inexpressible") and v["reachable"] and v["frames"] and not v.get("buffered"):
+            # a value the wire format cannot express: the call may be refused or dropped, but a frame that sets SOME value says
+            # something the caller did not ask for
+            probes["c04.inexpressible_value"] = 1
+            f = v["frames"][0]
+            V.append(viol("C04.meaning", {"call": v["call"], "target": v["target"], "args": v["args"], "frame": f["fr"]["raw"].hex(),
+                                          "reference_reading": repr(f["reading"])[:300], "why": "the requested value does not fit the protocol field; no frame can mean it"},
+                          call=v["call"], gen=sc["gen"]))
+            continue
+        if v.get("inexpressible"):
+            probes["c04.inexpressible_value"] = 1
         if not v["reachable"] or v["expect"] is None or v["expect"] != "accept":
             continue
         if v["exc"] is not None or not v["returned"]:
